@@ -11,6 +11,7 @@
            ([DerivedOK]: the profile predicates, CropOK of every season, the season-length bound, the initial water contents in bounds);
    Part D  [run_config_theorem]: from `run_config cfg fuel = RRun (Some (GOk m'))` to the conclusion of InitStateP.run_from_init;
    Part E  the profile part of [DerivedOK] from the soil specification (whole-centimetre thicknesses, strict layers): [derived_soil];
+           CropOK of every season from the user's crop: [derived_crop]; the closed statement with both discharged: [run_config_theorem_cfg];
    Part F  Examples. *)
 From Coq Require Import Reals List Bool ZArith Lra Lia.
 From AC Require Import Num RInst Params Kernels Clock Day DayConcrete RunConcrete.
@@ -20,7 +21,7 @@ From AC.Water Require Transpiration.
 From AC.Crop Require Canopy Roots Yield.
 From AC.proofs Require Import ProfR DayP DayConcreteP ClockP RunP RunConcreteP DaySideU DaySideP DaySideRun DaySideRun2 DayRowsP DaySideRows.
 From AC.proofs Require Import CalendarP InputsP SoilBuildR InitStateP YieldR.
-From AC.proofs Require RainIrrR TranspirationR RootsR.
+From AC.proofs Require RainIrrR TranspirationR RootsR CanopyR.
 Local Open Scope R_scope.
 Import ListNotations.
 #[local] Existing Instance YieldR.RTrig.
@@ -36,6 +37,9 @@ Proof. destruct r; cbn; congruence. Qed.
 Lemma of_opt_ok {A} e (o : option A) a : of_opt e o = IOk a -> o = Some a.
 Proof. destruct o; cbn; congruence. Qed.
 
+(* ============================================================================================================ *)
+(*  Part A  inversion                                                                                             *)
+(* ============================================================================================================ *)
 Section Inv.
   Variable cfg : Config R.
   Let u := cf_crop cfg.
@@ -115,3 +119,577 @@ Section Inv.
       try assumption; try reflexivity.
   Qed.
 End Inv.
+
+
+(* ============================================================================================================ *)
+(*  Part B  clock and state                                                                                       *)
+(* ============================================================================================================ *)
+Theorem initialise_clock_wf (cfg : Config R) i : initialise cfg = IOk i -> wf_clock (i_clock i).
+Proof.
+  intros H. destruct (initialise_inv _ _ H) as [x X]. rewrite (ii_eq _ _ _ X). cbn [i_clock]. unfold x_clock.
+  destruct (n_steps_pos _ _ _ (ii_clock _ _ _ X)) as (-> & _ & S1 & S2 & _).
+  exact (season_list_wf _ _ _ _ _ _ _ (sim_date_ok_valid _ S1) (sim_date_ok_valid _ S2) (ii_seasons _ _ _ X)).
+Qed.
+
+Lemma init_season_clock cfg (x : Parts) : init_season (x_clock cfg x) = x_k0 x.
+Proof.
+  unfold init_season, x_clock, x_k0, Calendar.initial_season_counter. cbn [plant]. destruct (x_l x) as [|[p h] r]; reflexivity.
+Qed.
+
+(* the initial state IS init_state applied to the model's own parameters, the season counter its clock starts with, the first
+   groundwater depth, the FC flag and the interpolated initial water contents *)
+Theorem initialise_state (cfg : Config R) i : initialise cfg = IOk i ->
+  exists zgw0 th0 rows zsoil,
+    SoilBuild.initial_wc (w_type (cf_iwc cfg)) (w_method (cf_iwc cfg)) rows zsoil (w_depth_layer (cf_iwc cfg)) (w_value (cf_iwc cfg)) = Some th0 /\
+    SoilBuild.to_comps rows <> None /\
+    InitState.init_state (i_par i) (init_season (i_clock i)) zgw0 (fc_reset_of (cf_iwc cfg)) th0 = Some (i_state i).
+Proof.
+  intros H. destruct (initialise_inv _ _ H) as [x X]. rewrite (ii_eq _ _ _ X). cbn [i_clock i_par i_state].
+  exists (x_zgw0 cfg x), (x_th0 x), (x_rows x), (x_zsoil x). split; [exact (ii_th0 _ _ _ X)|]. split.
+  - pose proof (ii_prof _ _ _ X) as P. unfold profile_of in P. destruct (SoilBuild.to_comps (x_rows x)); [discriminate|discriminate P].
+  - rewrite init_season_clock. exact (ii_s0 _ _ _ X).
+Qed.
+
+Theorem initialise_strong (cfg : Config R) i : initialise cfg = IOk i ->
+  ParOK (i_par i) (i_crops i) -> MgmtOK (i_par i) ->
+  table_ok (so_prof (p_soil (i_par i))) (p_water_table (i_par i)) ->
+  (forall th0 rows zsoil,
+     SoilBuild.initial_wc (w_type (cf_iwc cfg)) (w_method (cf_iwc cfg)) rows zsoil (w_depth_layer (cf_iwc cfg)) (w_value (cf_iwc cfg)) = Some th0 ->
+     SoilBuild.to_comps rows <> None -> in_bounds (so_prof (p_soil (i_par i))) th0) ->
+  StrongInv (i_par i) (i_crops i) (init_season (i_clock i)) 0 (i_state i).
+Proof.
+  intros H P M Ht Hb. destruct (initialise_state _ _ H) as (zgw0 & th0 & rows & zs & E1 & E2 & E3).
+  exact (init_state_strong _ _ zgw0 _ th0 P (Hb _ _ _ E1 E2) Ht M _ (init_season_cases _) _ E3).
+Qed.
+
+Theorem initialise_rinv2 (cfg : Config R) i : initialise cfg = IOk i ->
+  0 <= i_MaxIrrSeason (p_irr (i_par i)) -> RInv2 (i_par i) (i_state i).
+Proof.
+  intros H Hm. destruct (initialise_state _ _ H) as (zgw0 & th0 & rows & zs & _ & _ & E3).
+  exact (init_state_rinv2 _ _ _ _ _ _ Hm E3).
+Qed.
+
+
+(* ============================================================================================================ *)
+(*  Part C  what the configuration discharges, what remains                                                       *)
+(* ============================================================================================================ *)
+Lemma irr_of_fields (iu : IrrU R) s e irr : irr_of iu s e = IOk irr ->
+  i_NetIrrSMT irr = ir_NetIrrSMT iu /\ i_MaxIrrSeason irr = ir_MaxIrrSeason iu /\ i_WetSurf irr = ir_WetSurf iu /\ i_method irr = ir_method iu.
+Proof.
+  unfold irr_of. intros H. apply ibind_ok in H as (sch & _ & H). injection H as <-. cbn. auto.
+Qed.
+
+(* the curve number the run uses: the user's, or one of the four values compute_variables derives from Ksat *)
+Definition cn_candidate (so : SoilU R) (cn : R) : Prop :=
+  if (so_u_calc_cn so =? 1)%Z then cn = 46 \/ cn = 61 \/ cn = 72 \/ cn = 77 else cn = so_u_cn so.
+
+Lemma soil_of_fields (so : SoilU R) prof soil : soil_of so prof = IOk soil ->
+  so_prof soil = prof /\ so_kex soil = so_u_kex so /\ so_fwcc soil = so_u_fwcc so /\ cn_candidate so (so_cn soil).
+Proof.
+  unfold soil_of. destruct prof as [|c0 r]; [discriminate|]. intros H. apply ibind_ok in H as (cn & Hcn & H). injection H as <-.
+  cbn [so_prof so_kex so_fwcc so_cn]. repeat split. unfold cn_candidate. unfold cn_of in Hcn. revert Hcn. rnum.
+  destruct (so_u_calc_cn so =? 1)%Z; [|intros E; injection E as <-; reflexivity].
+  repeat match goal with |- context [if ?b then _ else _] => destruct b end; intros E; try discriminate; injection E as <-; auto.
+Qed.
+
+Definition field_u_ok (f : Inputs.FieldM R) : Prop :=
+  0 <= Inputs.fm_bund_water f /\ 0 <= Inputs.fm_z_bund f /\ 0 <= Inputs.fm_f_mulch f <= 1 /\ 0 <= Inputs.fm_mulch_pct f <= 100.
+
+Definition cn_field_ok (cn : R) (f : Inputs.FieldM R) : Prop :=
+  0 < RainIrrR.cn_mgmt cn (if Inputs.fm_cn_adj f then Inputs.fm_cn_adj_pct f else 0) <= 100.
+
+(* ET0 >= 0 and rain >= 0 in every row of the user's weather table (cells read by column NAME) *)
+Definition weather_nonneg (t : Inputs.Table R) : Prop :=
+  forall r x, In r (Inputs.t_rows t) ->
+    (named Inputs.CRefET t r = Inputs.Ok x -> 0 <= x) /\ (named Inputs.CPrecip t r = Inputs.Ok x -> 0 <= x).
+
+(* the premises on the CONFIGURATION *)
+Record CfgOK (cfg : Config R) : Prop := {
+  ck_no_table : gw_present (cf_gw cfg) = false;
+  ck_weather : weather_nonneg (cf_weather cfg);
+  ck_maxirr : 0 <= ir_MaxIrrSeason (cf_irr cfg);
+  ck_netsmt : 0 <= ir_NetIrrSMT (cf_irr cfg) <= 100;
+  ck_wet : 0 <= ir_WetSurf (cf_irr cfg);
+  ck_field : field_u_ok (cf_field cfg);
+  ck_fallow : field_u_ok (cf_fallow_field cfg);
+  ck_cn : forall cn, cn_candidate (cf_soil cfg) cn -> cn_field_ok cn (cf_field cfg) /\ cn_field_ok cn (cf_fallow_field cfg);
+  ck_kex : 0 <= so_u_kex (cf_soil cfg);
+  ck_fwcc : 0 <= so_u_fwcc (cf_soil cfg) <= 100;
+  ck_co2r : Inputs.co2_ref (cf_co2 cfg) < 550 }.
+
+(* what remains a premise on the DERIVED parameters *)
+Record DerivedOK (i : Init R) : Prop := {
+  dk_wf : wf_prof (so_prof (p_soil (i_par i)));
+  dk_geom : TranspirationR.geom 0 (so_prof (p_soil (i_par i)));
+  dk_layers : TranspirationR.layers_ok (so_prof (p_soil (i_par i)));
+  dk_pen : RootsR.pen_ok (so_prof (p_soil (i_par i)));
+  dk_crop : forall k, CropOK (sel_crop (i_par i) k) (i_crops i (c_id (sel_crop (i_par i) k))) (p_co2c (i_par i) k) (p_co2r (i_par i));
+  dk_season : forall k p h, nthZ (plant (i_clock i)) k = Some p -> nthZ (harv (i_clock i)) k = Some h ->
+     let kk := cf_tr (i_crops i (c_id (sel_crop (i_par i) k))) in
+     (IZR (h - p) - Transpiration.k_MaxCanopyCD kk - 5) * (Transpiration.k_fage kk / 100) <= Transpiration.k_Kcb kk;
+  dk_th0 : in_bounds (so_prof (p_soil (i_par i))) (d_th (i_state i)) }.
+
+Lemma mapr_In {A B} (f : A -> Inputs.res B) l bs : Inputs.mapr f l = Inputs.Ok bs -> forall b, In b bs -> exists a, In a l /\ f a = Inputs.Ok b.
+Proof.
+  revert bs. induction l as [|a l IH]; cbn [Inputs.mapr]; intros bs H b Hb.
+  - injection H as <-. contradiction.
+  - apply bindr_ok in H as (b0 & E0 & H). apply bindr_ok in H as (bs0 & E1 & H). injection H as <-.
+    destruct Hb as [<-|Hb]; [exists a; split; [left; reflexivity|exact E0]|].
+    destruct (IH _ E1 _ Hb) as (a' & Ia & Ea). exists a'. split; [right; exact Ia|exact Ea].
+Qed.
+
+Lemma weather_rows_nonneg s e (t tab : Inputs.Table R) wsel :
+  weather_nonneg t -> Inputs.clip_table s e t = Inputs.Ok tab -> Inputs.select_weather tab = Inputs.Ok wsel ->
+  Forall (fun r => 0 <= Inputs.w_et0 r /\ 0 <= Inputs.w_prec r) wsel.
+Proof.
+  intros Hn E1 E2.
+  assert (Hb : Inputs.bind_weather s e t = Inputs.Ok wsel) by (unfold Inputs.bind_weather; rewrite E1; exact E2).
+  destruct (bind_ok_spec _ _ _ _ Hb) as [Hm _].
+  apply Forall_forall. intros b Ib. destruct (mapr_In _ _ _ Hm b Ib) as (r & Ir & Er).
+  unfold window_rows in Ir. apply filter_In in Ir as [Ir _].
+  destruct (wrow_of_named _ _ _ Er) as (_ & _ & Hp & He).
+  destruct (Hn r (Inputs.w_et0 b) Ir) as [A _]. destruct (Hn r (Inputs.w_prec b) Ir) as [_ B]. auto.
+Qed.
+
+Lemma weather_of_ok wt (wsel : list (Inputs.WRow R)) : forall zgw,
+  Forall (fun r => 0 <= Inputs.w_et0 r /\ 0 <= Inputs.w_prec r) wsel -> Forall WOK2 (weather_of wt wsel zgw).
+Proof.
+  induction wsel as [|r rest IH]; intros zgw H; cbn [weather_of]; [constructor|].
+  inversion H as [|? ? [A B] H']; subst. constructor; [|apply IH; exact H'].
+  constructor; cbn [Day.w_et0 Day.w_rain]; assumption.
+Qed.
+
+Lemma Forall_weather_ok (ws : list (Day.W R)) : Forall WOK2 ws -> weather_ok (Day.W R) WOK2 ws.
+Proof.
+  intros H t w. unfold nthW. destruct (t <? 0)%Z; [discriminate|]. intros E. apply nth_error_In in E.
+  rewrite Forall_forall in H. exact (H _ E).
+Qed.
+
+Section FromCfg.
+  Variables (cfg : Config R) (x : Parts) (i : Init R).
+  Hypothesis CK : CfgOK cfg.
+  Hypothesis X : IsInit cfg x i.
+
+  Lemma cfg_weather_ok : weather_ok (Day.W R) WOK2 (i_weather i).
+  Proof.
+    rewrite (ii_eq _ _ _ X). cbn [i_weather]. apply Forall_weather_ok, weather_of_ok.
+    exact (weather_rows_nonneg _ _ _ _ _ (ck_weather _ CK) (ii_tab _ _ _ X) (ii_wsel _ _ _ X)).
+  Qed.
+
+  Lemma cfg_no_table : p_water_table (i_par i) = 0%Z.
+  Proof. rewrite (ii_eq _ _ _ X). cbn [i_par]. unfold x_par, par_of. cbn [p_water_table]. rewrite (ck_no_table _ CK). reflexivity. Qed.
+
+  Lemma cfg_maxirr : 0 <= i_MaxIrrSeason (p_irr (i_par i)).
+  Proof.
+    rewrite (ii_eq _ _ _ X). cbn [i_par]. unfold x_par, par_of. cbn [p_irr].
+    destruct (irr_of_fields _ _ _ _ (ii_irr _ _ _ X)) as (_ & -> & _). exact (ck_maxirr _ CK).
+  Qed.
+
+  Lemma cfg_mgmt : MgmtOK (i_par i).
+  Proof.
+    rewrite (ii_eq _ _ _ X). cbn [i_par]. unfold x_par, par_of.
+    destruct (irr_of_fields _ _ _ _ (ii_irr _ _ _ X)) as (E1 & _ & _ & _).
+    destruct (ck_field _ CK) as (A1 & A2 & _). destruct (ck_fallow _ CK) as (B1 & _).
+    constructor; cbn [p_field p_fallow_field p_irr p_fallow_irr field_of f_bund_water f_z_bund fallow_irr i_NetIrrSMT]; try assumption.
+    - rewrite E1. exact (ck_netsmt _ CK).
+    - rnum. lra.
+  Qed.
+
+  Lemma cfg_cn : cn_ok (i_par i).
+  Proof.
+    rewrite (ii_eq _ _ _ X). cbn [i_par]. unfold x_par, par_of, cn_ok, cn_ok_field. cbn [p_soil p_field p_fallow_field field_of f_cn_adj f_cn_adj_pct].
+    destruct (soil_of_fields _ _ _ (ii_soil _ _ _ X)) as (_ & _ & _ & Hc).
+    exact (ck_cn _ CK _ Hc).
+  Qed.
+
+  (* ParOK from the scalar premises on the configuration and the residual premises on the derived parameters *)
+  Lemma cfg_parok : DerivedOK i -> ParOK (i_par i) (i_crops i).
+  Proof.
+    intros D.
+    pose proof (dk_wf _ D) as D1. pose proof (dk_geom _ D) as D2. pose proof (dk_layers _ D) as D3. pose proof (dk_pen _ D) as D4.
+    pose proof (dk_crop _ D) as D5. clear D.
+    rewrite (ii_eq _ _ _ X) in *. cbn [i_par i_crops] in *.
+    destruct (soil_of_fields _ _ _ (ii_soil _ _ _ X)) as (_ & Ek & Ef & _).
+    destruct (irr_of_fields _ _ _ _ (ii_irr _ _ _ X)) as (_ & _ & Ew & _).
+    destruct (ck_field _ CK) as (_ & _ & A3 & A4). destruct (ck_fallow _ CK) as (_ & _ & B3 & B4).
+    constructor; try assumption.
+    - unfold x_par, par_of. cbn [p_soil]. rewrite Ek. exact (ck_kex _ CK).
+    - unfold x_par, par_of. cbn [p_soil]. rewrite Ef. exact (ck_fwcc _ CK).
+    - unfold x_par, par_of. cbn [p_field field_of f_f_mulch f_mulch_pct]. split; assumption.
+    - unfold x_par, par_of. cbn [p_fallow_field field_of f_f_mulch f_mulch_pct]. split; assumption.
+    - unfold x_par, par_of. cbn [p_irr]. rewrite Ew. exact (ck_wet _ CK).
+    - unfold x_par, par_of. cbn [p_fallow_irr fallow_irr i_WetSurf]. rnum. lra.
+    - unfold x_par, par_of. cbn [p_co2r]. exact (ck_co2r _ CK).
+    - (* the CC0 the reset stores is the CC0 the canopy process reads: the same number *)
+      intros k Hk. specialize (D5 k). pose proof (co_can _ _ _ _ D5) as Hc. destruct Hc as [H0 _ _ _ _].
+      revert H0. unfold sel_crop. replace (0 <=? k)%Z with true by (symmetry; apply Z.leb_le; exact Hk).
+      unfold x_par, par_of, x_crops, crops_of. cbn [p_crop dcrop_of c_id c_CC0 cropfull_of cf_can Canopy.k_CC0]. lra.
+  Qed.
+End FromCfg.
+
+
+(* ============================================================================================================ *)
+(*  Part D  the whole run from the configuration                                                                  *)
+(* ============================================================================================================ *)
+Lemma run_config_run (cfg : Config R) fuel m' : run_config cfg fuel = RRun (Some (GOk m')) ->
+  exists i m0, initialise cfg = IOk i /\ init_c (i_clock i) (i_state i) = Ok m0 /\
+               run_till_c (i_par i) (i_crops i) (i_clock i) (i_weather i) fuel m0 = Some (GOk m').
+Proof.
+  unfold run_config. destruct (initialise cfg) as [i|] eqn:Hi; [|discriminate].
+  destruct (init_c (i_clock i) (i_state i)) as [m0|] eqn:Hc; [|discriminate].
+  intros H. exists i, m0. split; [reflexivity|]. split; [exact Hc|].
+  destruct (first_bad_season i) as [kb|].
+  - destruct (run_till_c _ _ _ _ _ _) as [[m| |t]|]; try (injection H as <-; reflexivity).
+    + destruct (kb <=? season (st m))%Z; [discriminate|]. injection H as <-. reflexivity.
+    + destruct (match nthZ (plant (i_clock i)) kb with Some p => (p <=? t)%Z | None => false end); [discriminate|].
+      injection H as H. discriminate H.
+  - injection H as <-. reflexivity.
+Qed.
+
+(* THE CLOSED STATEMENT: AquaCropModel(<the user's objects>).run_model(till_termination=True), no water table.
+   Premises: [CfgOK] on the configuration alone, [DerivedOK] on the parameters the initialisation derives from it.
+   Conclusion: that of InitStateP.run_from_init — the run is a chain of days ([Reach]) from the initialised model, every day
+   satisfies [strong_ev] and every per-row theorem ([rows_day]: C01 / C02 / C03 / C04 / C05 / C06 / C13 / C19). *)
+Theorem run_config_theorem (cfg : Config R) fuel m' :
+  CfgOK cfg ->
+  (forall i, initialise cfg = IOk i -> DerivedOK i) ->
+  run_config cfg fuel = RRun (Some (GOk m')) ->
+  exists i m0 (evs : list (Ev (DState R) (Day.W R) (DRow R))),
+    initialise cfg = IOk i /\ init_c (i_clock i) (i_state i) = Ok m0 /\
+    Reach (DState R) (Day.W R) (DRow R) (DOut R) (proc_c (i_par i) (i_crops i)) dead (matured (i_par i)) (summary_of (i_par i))
+          (reset (i_par i)) (defined_c (i_par i) (i_crops i)) (i_clock i) (i_weather i) m0 evs m' /\
+    SInv (i_par i) (i_crops i) (st m') /\ RInv2 (i_par i) (phys (st m')) /\
+    Forall (fun e => strong_ev (i_par i) (i_crops i) e /\ rows_day (i_par i) (i_crops i) e) evs /\
+    chained _ _ _ (reset (i_par i)) (i_weather i) (phys (st m')) evs /\
+    rows (tabs m') = map (fun e => (e_tsc _ _ _ e, e_row _ _ _ e)) evs ++ rows (tabs m0).
+Proof.
+  intros CK DK HR. destruct (run_config_run _ _ _ HR) as (i & m0 & Hi & Hc & Hrun).
+  exists i, m0. destruct (initialise_inv _ _ Hi) as [x X]. specialize (DK i Hi).
+  destruct (initialise_state _ _ Hi) as (zgw0 & th0 & rows & zs & _ & _ & E3).
+  pose proof (cfg_no_table _ _ _ CK X) as Hwt.
+  (* without a water table th = th0 *)
+  assert (Hth : in_bounds (so_prof (p_soil (i_par i))) th0).
+  { destruct (init_state_defined_no_table (i_par i) (init_season (i_clock i)) zgw0 (fc_reset_of (cf_iwc cfg)) th0 Hwt) as (s & Es & Et & _).
+    rewrite E3 in Es. injection Es as <-. rewrite <- Et. exact (dk_th0 _ DK). }
+  destruct (run_from_init (i_par i) (i_crops i) (i_clock i) (i_weather i) zgw0 (fc_reset_of (cf_iwc cfg)) th0 (i_state i) m0 m' fuel
+              (cfg_cn _ _ _ CK X) (cfg_maxirr _ _ _ CK X) (cfg_parok _ _ _ CK X DK) (cfg_mgmt _ _ _ CK X)
+              (initialise_clock_wf _ _ Hi) (cfg_weather_ok _ _ _ CK X) (dk_season _ DK) Hwt Hth E3 Hc Hrun) as (evs & H).
+  exists evs. split; [exact Hi|]. split; [exact Hc|]. exact H.
+Qed.
+
+
+(* ============================================================================================================ *)
+(*  Part E  the profile part of DerivedOK from the soil specification                                             *)
+(* ============================================================================================================ *)
+(* valid soil layers: whole-centimetre compartment thicknesses; every layer (after the pedotransfer, for texture layers) has
+   0 < wp < fc < s, Ksat >= 1 and a penetrability that is a percentage *)
+Definition soil_u_ok (so : SoilU R) : Prop :=
+  Forall cm (so_dz so) /\
+  forall Ls, SoilBuild.resolve_layers (so_layers so) = Some Ls ->
+    Forall (fun L => strict_layer L /\ 0 <= SoilBuild.ls_pen L <= 100) Ls.
+
+Definition asg_strict (a : SoilBuild.Asg (F:=R)) : Prop :=
+  SoilBuild.a_dry a = SoilBuild.a_wp a / 2 /\ 0 < SoilBuild.a_wp a /\ SoilBuild.a_wp a < SoilBuild.a_fc a /\
+  SoilBuild.a_fc a < SoilBuild.a_s a /\ 8 / 100 <= SoilBuild.a_tau a <= 1 /\ 1 <= SoilBuild.a_ksat a /\ 0 <= SoilBuild.a_pen a <= 100.
+
+Lemma mk_asg_strict k L : strict_layer L -> 0 <= SoilBuild.ls_pen L <= 100 -> asg_strict (SoilBuild.mk_asg k L).
+Proof.
+  intros (H1 & H2 & H3 & H4) Hp. unfold asg_strict, SoilBuild.mk_asg. cbn. rnum.
+  pose proof (tau_of_range (SoilBuild.ls_ksat L)). pose proof (tau_of_pos _ H4). repeat split; try lra; try exact H0; try apply H.
+Qed.
+
+Lemma rows_sat_same (P : SoilBuild.Asg (F:=R) -> Prop) rows rows' :
+  Forall2 same_but_dz rows rows' -> rows_sat P rows -> rows_sat P rows'.
+Proof.
+  unfold rows_sat. induction 1 as [|r r' l l' (Ea & _) _ IH]; intros H; [constructor|].
+  inversion H; subst. constructor; [rewrite Ea; assumption|apply IH; assumption].
+Qed.
+
+Lemma to_comps_geom rows : forall p top, SoilBuild.to_comps rows = Some p -> sums_ok top rows -> TranspirationR.geom top p.
+Proof.
+  induction rows as [|r rows IH]; intros p top; cbn [SoilBuild.to_comps].
+  - intros E _. injection E as <-. exact I.
+  - destruct (SoilBuild.to_comp r) as [c|] eqn:Ec; [|discriminate]. destruct (SoilBuild.to_comps rows) as [cs|]; [|discriminate].
+    intros E [S1 S2]. injection E as <-. unfold SoilBuild.to_comp in Ec. destruct (SoilBuild.r_asg r); [|discriminate]. injection Ec as <-.
+    cbn [TranspirationR.geom c_dzsum c_dz]. split; [exact S1|]. apply IH; [reflexivity|exact S2].
+Qed.
+
+Theorem derived_soil (cfg : Config R) i :
+  initialise cfg = IOk i -> gw_present (cf_gw cfg) = false -> soil_u_ok (cf_soil cfg) ->
+  wf_prof (so_prof (p_soil (i_par i))) /\ TranspirationR.geom 0 (so_prof (p_soil (i_par i))) /\ RootsR.pen_ok (so_prof (p_soil (i_par i))).
+Proof.
+  intros Hi Hgw [Hcm Hls]. destruct (initialise_inv _ _ Hi) as [x X]. rewrite (ii_eq _ _ _ X). cbn [i_par]. unfold x_par, par_of. cbn [p_soil].
+  destruct (soil_of_fields _ _ _ (ii_soil _ _ _ X)) as (-> & _).
+  pose proof (ii_prof _ _ _ X) as Hp. rewrite Hgw in Hp. unfold profile_of in Hp.
+  destruct (SoilBuild.to_comps (x_rows x)) as [cs|] eqn:Ec; [|discriminate]. cbn [of_opt ibind] in Hp. injection Hp as Hp. rewrite <- Hp.
+  specialize (Hls _ (ii_layers _ _ _ X)).
+  pose proof (ii_rows _ _ _ X) as Hd. unfold SoilBuild.build_deepened in Hd.
+  destruct (SoilBuild.build_rows (so_dz (cf_soil cfg)) (x_Ls x)) as [[rows0 zs0]|] eqn:Eb; [|discriminate].
+  (* the undeepened profile *)
+  destruct (build_wf_geometry _ _ _ _ Hcm Eb) as (M & G & Z).
+  assert (S0 : rows_sat asg_strict rows0).
+  { eapply build_rows_sat; [|exact Eb]. intros L k HL. rewrite Forall_forall in Hls. destruct (Hls L HL). apply mk_asg_strict; assumption. }
+  assert (A0 : Forall assigned rows0).
+  { unfold SoilBuild.build_rows in Eb. destruct (SoilBuild.add_layers _ _); [|discriminate]. exact (fill_nan_assigned _ _ _ Eb). }
+  pose proof (deepen_preserves _ _ _ _ _ _ A0 Hd) as Sm.
+  assert (N0 : rows0 <> []).
+  { intros ->. inversion Sm as [E1 E2|]. rewrite <- E2 in Ec. cbn in Ec. injection Ec as <-.
+    pose proof (ii_soil _ _ _ X) as Hs. rewrite <- Hp in Hs. discriminate Hs. }
+  assert (C0 : Forall cm (map SoilBuild.r_dz rows0)) by (rewrite M; exact Hcm).
+  destruct (deepen_sums _ _ _ _ _ _ N0 A0 C0 (geom_sums _ _ G) ltac:(rewrite M; exact Z) Hd) as (C1 & S1 & _ & _).
+  pose proof (rows_sat_same _ _ _ Sm S0) as P1.
+  split; [|split].
+  - assert (Hdz : Forall (fun c => 0 < c_dz c) cs).
+    { apply to_comps_dz in Ec. rewrite <- Ec in C1. rewrite Forall_map in C1. eapply Forall_impl; [|exact C1]. intros c Hc. apply cm_pos; exact Hc. }
+    assert (Hs : Forall (fun c => 0 < c_th_dry c /\ c_th_dry c < c_th_wp c /\ c_th_wp c < c_th_fc c /\ c_th_fc c < c_th_s c /\
+                                  0 < c_tau c <= 1 /\ 0 < c_ksat c) cs).
+    { apply (to_comps_forall _ asg_strict (x_rows x) cs); [|exact P1|exact Ec].
+      intros r a c Ea (H1 & H2 & H3 & H4 & H5 & H6 & _) Et. unfold SoilBuild.to_comp in Et. rewrite Ea in Et. injection Et as <-. cbn. lra. }
+    unfold wf_prof. rewrite Forall_forall in *. intros c Hc. destruct (Hs c Hc) as (H1 & H2 & H3 & H4 & H5 & H6).
+    constructor; auto.
+  - exact (to_comps_geom _ _ _ Ec S1).
+  - unfold RootsR.pen_ok. apply (to_comps_forall _ asg_strict (x_rows x) cs); [|exact P1|exact Ec].
+    intros r a c Ea (_ & _ & _ & _ & _ & _ & H7) Et. unfold SoilBuild.to_comp in Et. rewrite Ea in Et. injection Et as <-. cbn. exact H7.
+Qed.
+
+
+(* ============================================================================================================ *)
+(*  Part E.2  CropOK of every season from the user's crop                                                         *)
+(* ============================================================================================================ *)
+(* what every season's crop record shares with the crop at initialisation: CC0, SxTop, SxBot (reset_initial_conditions rewrites fCO2,
+   and for thermal-time crops the calendar-day lengths, HIGC and the linear switch — nothing CropOK reads) *)
+Definition same_core (o o' : CropInit.CropOut (F:=R)) : Prop :=
+  CropInit.o_CC0 o' = CropInit.o_CC0 o /\ CropInit.o_SxTop o' = CropInit.o_SxTop o /\ CropInit.o_SxBot o' = CropInit.o_SxBot o.
+
+Lemma crop_init_core (c : CropInit.CropIn (F:=R)) gdd conc ref o : CropInit.crop_init c gdd conc ref = CropInit.IOk o ->
+  CropInit.o_CC0 o = CropInit.cc0_of (CropInit.i_PlantPop c) (CropInit.i_SeedSize c) /\
+  CropInit.o_SxTop o = fst (CropInit.sx_terms (CropInit.i_SxTopQ c) (CropInit.i_SxBotQ c)) /\
+  CropInit.o_SxBot o = snd (CropInit.sx_terms (CropInit.i_SxTopQ c) (CropInit.i_SxBotQ c)).
+Proof.
+  unfold CropInit.crop_init. destruct (CropInit.sx_terms _ _) as [sxt sxb]. cbn [fst snd].
+  repeat match goal with
+         | |- context [match ?x with _ => _ end] => destruct x
+         | |- context [if ?b then _ else _] => destruct b
+         end; intros E; try discriminate E; injection E as <-; cbn; auto.
+Qed.
+
+Lemma reseason_core u o gdd o2 : reseason_gdd (F:=R) u o gdd = Some o2 -> same_core o o2.
+Proof.
+  unfold reseason_gdd. destruct (CropInit.crop_init _ _ _ _); [|discriminate]. intros E. injection E as <-. repeat split.
+Qed.
+
+Lemma season_of_core (u : CropU R) s k0 wsel co2 conc0 o0 k p : same_core o0 (snd (fst (season_of u s k0 wsel co2 conc0 o0 k p))).
+Proof.
+  unfold season_of. destruct ((k =? 0)%Z && (k0 =? 0)%Z); [repeat split|].
+  destruct (Inputs.co2_season _ _); [|repeat split].
+  destruct (u_CalendarType u =? 2)%Z; [|repeat split].
+  destruct (gdd_from _ _ _); [|repeat split].
+  destruct (reseason_gdd _ _ _) eqn:E; [|repeat split].
+  cbn [fst snd]. destruct (reseason_core _ _ _ _ E) as (A & B & C). cbn in A, B, C. repeat split; assumption.
+Qed.
+
+Lemma look3_core (u : CropU R) s k0 l wsel co2 conc0 o0 k :
+  same_core o0 (snd (fst (look3 (seasons_of u s k0 l wsel co2 conc0 o0) conc0 o0 k))).
+Proof.
+  unfold look3. destruct (k <? 0)%Z; [repeat split|].
+  unfold seasons_of. set (f := fun kp : Z * Z => season_of u s k0 wsel co2 conc0 o0 (fst kp) (snd kp)).
+  destruct (nth_in_or_default (Z.to_nat k) (map f (combine (Calendar.zrange 0 (Z.of_nat (length l))) (map fst l))) (conc0, o0, true)) as [Hin | ->].
+  - apply in_map_iff in Hin as (kp & <- & _). apply season_of_core.
+  - repeat split.
+Qed.
+
+Definition cgc_u (u : CropU R) : R := if (u_CalendarType u =? 1)%Z then u_CGC_CD u else u_CGC u.
+Definition cdc_u (u : CropU R) : R := if (u_CalendarType u =? 1)%Z then u_CDC_CD u else u_CDC u.
+Definition zmin_ok (u : CropU R) (zmin : R) : Prop :=
+  0 < zmin /\ zmin <= u_Zmax u /\ zmin * (u_PctZmin u / 100) <= u_Zmax u /\ RootsR.zmin_cm zmin.
+
+(* the premises on the user's crop (catalogue row after the overrides) *)
+Record CropUOK (u : CropU R) : Prop := {
+  cu_cc0 : 0 < CropInit.cc0_of (u_PlantPop u) (u_SeedSize u);
+  cu_cc0x : CropInit.cc0_of (u_PlantPop u) (u_SeedSize u) <= u_CCx u;
+  cu_ccx : u_CCx u <= 1;
+  cu_cgc : 0 < cgc_u u;
+  cu_cdc : 0 <= cdc_u u;
+  cu_step : CropInit.cc0_of (u_PlantPop u) (u_SeedSize u) *
+            exp (cgc_u u * (if (u_CalendarType u =? 1)%Z then 1 else u_Tupp u - u_Tbase u)) <= u_CCx u;
+  cu_temp : u_Tbase u <= u_Tupp u;
+  cu_zmin : zmin_ok u (u_Zmin u);
+  cu_zmin_f : zmin_ok u (3 / 10);                 (* the filler crop before the first season: Zmin = 0.3 *)
+  cu_fr : 0 < u_fshape_r u;
+  cu_pup : 0 <= u_pu2 u < 1;
+  cu_fw : u_fw2 u <> 0;
+  cu_sxt : 0 <= fst (CropInit.sx_terms (u_SxTopQ u) (u_SxBotQ u));
+  cu_sxb : 0 <= snd (CropInit.sx_terms (u_SxTopQ u) (u_SxBotQ u));
+  cu_lag : 1 < u_LagAer u;
+  cu_lag_int : exists L : Z, u_LagAer u = IZR L;
+  cu_kcb : 0 <= u_Kcb u;
+  cu_fage : 0 <= u_fage u }.
+
+Lemma crop_ok_of (u : CropU R) (o : CropInit.CropOut (F:=R)) (dc : DCrop R) co2c co2r :
+  CropUOK u ->
+  CropInit.o_CC0 o = CropInit.cc0_of (u_PlantPop u) (u_SeedSize u) ->
+  CropInit.o_SxTop o = fst (CropInit.sx_terms (u_SxTopQ u) (u_SxBotQ u)) ->
+  CropInit.o_SxBot o = snd (CropInit.sx_terms (u_SxTopQ u) (u_SxBotQ u)) ->
+  c_Tupp dc = u_Tupp u -> c_Tbase dc = u_Tbase u -> zmin_ok u (c_Zmin dc) ->
+  co2c - co2r <= 20 * (550 - co2r) ->
+  CropOK dc (cropfull_of u o) co2c co2r.
+Proof.
+  intros U E0 E1 E2 Eu Eb (Z1 & Z2 & Z3 & Z4) Hco2.
+  constructor; unfold cropfull_of;
+    cbn [cf_can cf_root cf_tr Canopy.k_CC0 Canopy.k_CCx Canopy.k_CGC Canopy.k_CDC Canopy.k_cal Roots.rc_SxTop Roots.rc_SxBot
+         Transpiration.k_SxTop Transpiration.k_SxBot Transpiration.k_LagAer Transpiration.k_Kcb Transpiration.k_fage].
+  - constructor; cbn [Canopy.k_CC0 Canopy.k_CCx Canopy.k_CGC Canopy.k_CDC]; rewrite ?E0.
+    + exact (cu_cc0 _ U). + exact (cu_cc0x _ U). + exact (cu_ccx _ U). + exact (cu_cgc _ U). + exact (cu_cdc _ U).
+  - rewrite E0, Eu, Eb. exact (cu_step _ U).
+  - rewrite Eu, Eb. exact (cu_temp _ U).
+  - unfold root_crop. cbn [cf_root]. constructor; unfold Roots.rd_zini;
+      cbn [Roots.rc_Zmin Roots.rc_Zmax Roots.rc_PctZmin Roots.rc_fshape_r Roots.rc_pup1 Roots.rc_fshape_w1]; rnum; try assumption.
+    + exact (cu_fr _ U). + exact (cu_pup _ U). + exact (cu_fw _ U).
+  - exact Z4.
+  - rewrite E1. exact (cu_sxt _ U).
+  - rewrite E2. exact (cu_sxb _ U).
+  - rewrite E1. exact (cu_sxt _ U).
+  - rewrite E2. exact (cu_sxb _ U).
+  - exact (cu_lag _ U).
+  - exact (cu_lag_int _ U).
+  - exact (cu_kcb _ U).
+  - exact (cu_fage _ U).
+  - exact Hco2.
+Qed.
+
+(* CropOK of every season (and of the filler crop) from the user's crop; the CO2 concentrations of the seasons stay a premise on the
+   derived parameters (they come out of the interpolated CO2 table) *)
+Theorem derived_crop (cfg : Config R) i :
+  initialise cfg = IOk i -> CropUOK (cf_crop cfg) ->
+  (forall k, p_co2c (i_par i) k - p_co2r (i_par i) <= 20 * (550 - p_co2r (i_par i))) ->
+  forall k, CropOK (sel_crop (i_par i) k) (i_crops i (c_id (sel_crop (i_par i) k))) (p_co2c (i_par i) k) (p_co2r (i_par i)).
+Proof.
+  intros Hi U Hco2 k. destruct (initialise_inv _ _ Hi) as [x X]. specialize (Hco2 k). revert Hco2.
+  rewrite (ii_eq _ _ _ X). cbn [i_par i_crops]. intros Hco2.
+  destruct (crop_init_core _ _ _ _ _ (ii_o0 _ _ _ X)) as (C0 & C1 & C2). cbn [crop_in CropInit.i_PlantPop CropInit.i_SeedSize CropInit.i_SxTopQ CropInit.i_SxBotQ] in C0, C1, C2.
+  unfold sel_crop. destruct (0 <=? k)%Z eqn:Ek.
+  - unfold x_par at 1 2. unfold par_of. cbn [p_crop dcrop_of c_id]. unfold x_crops, crops_of.
+    destruct (look3_core (cf_crop cfg) (Initialise.day_of (cf_start cfg)) (x_k0 x) (x_l x) (x_wsel x) (x_co2 x) (conc0_of cfg) (x_o0 x) k) as (A & B & C).
+    apply crop_ok_of; try assumption; try reflexivity.
+    + unfold x_seasons. rewrite A. exact C0.
+    + unfold x_seasons. rewrite B. exact C1.
+    + unfold x_seasons. rewrite C. exact C2.
+    + exact (cu_zmin _ U).
+  - unfold x_par at 1 2. unfold par_of. cbn [p_fallow_crop fallow_crop dcrop_of c_id]. unfold x_crops, crops_of.
+    assert (Hk : (-1 <? 0)%Z = true) by reflexivity. unfold look3 at 1. rewrite Hk. cbn [fst snd].
+    apply crop_ok_of; try assumption; try reflexivity.
+    cbn [c_Zmin]. rnum. exact (cu_zmin_f _ U).
+Qed.
+
+(* THE CLOSED STATEMENT with the soil and crop parts discharged from the configuration.  What remains as premises on the DERIVED
+   parameters: (1) the compartments of a layer share th_wp / th_fc ([layers_ok]); (2) the CO2 concentration of every season is at most
+   20 * (550 - ref) above the reference; (3) the bound on the length of a season (Kcb ageing stays non-negative); (4) the initial
+   water contents lie within [th_dry, th_s]. *)
+Theorem run_config_theorem_cfg (cfg : Config R) fuel m' :
+  CfgOK cfg -> soil_u_ok (cf_soil cfg) -> CropUOK (cf_crop cfg) ->
+  (forall i, initialise cfg = IOk i ->
+     TranspirationR.layers_ok (so_prof (p_soil (i_par i))) /\
+     (forall k, p_co2c (i_par i) k - p_co2r (i_par i) <= 20 * (550 - p_co2r (i_par i))) /\
+     (forall k p h, nthZ (plant (i_clock i)) k = Some p -> nthZ (harv (i_clock i)) k = Some h ->
+        let kk := cf_tr (i_crops i (c_id (sel_crop (i_par i) k))) in
+        (IZR (h - p) - Transpiration.k_MaxCanopyCD kk - 5) * (Transpiration.k_fage kk / 100) <= Transpiration.k_Kcb kk) /\
+     in_bounds (so_prof (p_soil (i_par i))) (d_th (i_state i))) ->
+  run_config cfg fuel = RRun (Some (GOk m')) ->
+  exists i m0 (evs : list (Ev (DState R) (Day.W R) (DRow R))),
+    initialise cfg = IOk i /\ init_c (i_clock i) (i_state i) = Ok m0 /\
+    Reach (DState R) (Day.W R) (DRow R) (DOut R) (proc_c (i_par i) (i_crops i)) dead (matured (i_par i)) (summary_of (i_par i))
+          (reset (i_par i)) (defined_c (i_par i) (i_crops i)) (i_clock i) (i_weather i) m0 evs m' /\
+    SInv (i_par i) (i_crops i) (st m') /\ RInv2 (i_par i) (phys (st m')) /\
+    Forall (fun e => strong_ev (i_par i) (i_crops i) e /\ rows_day (i_par i) (i_crops i) e) evs /\
+    chained _ _ _ (reset (i_par i)) (i_weather i) (phys (st m')) evs /\
+    rows (tabs m') = map (fun e => (e_tsc _ _ _ e, e_row _ _ _ e)) evs ++ rows (tabs m0).
+Proof.
+  intros CK SK UK DK. apply run_config_theorem; [exact CK|].
+  intros i Hi. destruct (DK i Hi) as (D1 & D2 & D3 & D4).
+  destruct (derived_soil cfg i Hi (ck_no_table _ CK) SK) as (S1 & S2 & S3).
+  constructor; try assumption. exact (derived_crop cfg i Hi UK D2).
+Qed.
+
+(* ============================================================================================================ *)
+(*  Part F  examples                                                                                              *)
+(* ============================================================================================================ *)
+(* ---- a concrete configuration: three days of weather, a one-layer soil of two compartments, rainfed, no water table ------ *)
+Definition ex_crop : CropU R := {| u_planting := (5, 1)%Z; u_harvest := Some (9, 1)%Z; u_CropType := 3%Z; u_CalendarType := 1%Z; u_SwitchGDD := 0%Z; u_GDDmethod := 3%Z; u_ETadj := 1%Z; u_PolHeatStress := 1%Z; u_PolColdStress := 1%Z; u_TrColdStress := 1%Z; u_PlantMethod := 1; u_Determinant := 1; u_Tupp := 1; u_Tbase := 1; u_GermThr := 1; u_YldWC := 1; u_Zmin := 1; u_Zmax := 1; u_Aer := 1; u_LagAer := 1; u_PctZmin := 1; u_fshape_r := 1; u_fshape_ex := 1; u_fshape_b := 1; u_SxTopQ := 1; u_SxBotQ := 1; u_SeedSize := 1; u_PlantPop := 1; u_CCx := 1; u_CDC := 1; u_CGC := 1; u_CDC_CD := 1; u_CGC_CD := 1; u_Kcb := 1; u_fage := 1; u_a_Tr := 1; u_WP := 1; u_WPy := 1; u_fsink := 1; u_bsted := 1; u_bface := 1; u_HI0 := 1; u_HIini := 1; u_dHI_pre := 1; u_a_HI := 1; u_b_HI := 1; u_dHI0 := 1; u_exc := 1; u_CCmin := 1; u_beta := 1; u_pu1 := 1; u_pu2 := 1; u_pu3 := 1; u_pu4 := 1; u_pl1 := 1; u_pl2 := 1; u_pl3 := 1; u_pl4 := 1; u_fw1 := 1; u_fw2 := 1; u_fw3 := 1; u_Tmax_up := 1; u_Tmax_lo := 1; u_Tmin_up := 1; u_Tmin_lo := 1; u_GDD_up := 1; u_GDD_lo := 1; u_EmergenceCD := 1; u_MaxRootingCD := 1; u_SenescenceCD := 1; u_MaturityCD := 1; u_HIstartCD := 1; u_FloweringCD := 1; u_YldFormCD := 1; u_Emergence := 1; u_MaxRooting := 1; u_Senescence := 1; u_Maturity := 1; u_HIstart := 1; u_Flowering := 1; u_YldForm := 1 |}.
+Definition ex_field : Inputs.FieldM R :=
+  {| Inputs.fm_mulches := false; Inputs.fm_bunds := true; Inputs.fm_cn_adj := true; Inputs.fm_sr_inhb := false; Inputs.fm_mulch_pct := 50;
+     Inputs.fm_f_mulch := 1 / 2; Inputs.fm_z_bund := 200; Inputs.fm_bund_water := 10; Inputs.fm_cn_adj_pct := 10 |}.
+Definition ex_layer_u : SoilBuild.LayerSpec (F:=R) :=
+  {| SoilBuild.ls_thick := 2 / 10; SoilBuild.ls_wp := 1 / 10; SoilBuild.ls_fc := 3 / 10; SoilBuild.ls_s := 5 / 10;
+     SoilBuild.ls_ksat := 500; SoilBuild.ls_pen := 100 |}.
+Definition ex_soil : SoilU R :=
+  {| so_dz := [1 / 10; 1 / 10]; so_layers := [SoilBuild.LHyd ex_layer_u]; so_u_cn := 61; so_u_calc_cn := 0%Z; so_u_adj_rew := 1%Z;
+     so_u_rew := 9; so_u_evap_z_surf := 4 / 100; so_u_evap_z_min := 15 / 100; so_u_evap_z_max := 30 / 100; so_u_kex := 11 / 10;
+     so_u_f_evap := 4; so_u_f_wrel_exp := 4 / 10; so_u_fwcc := 50; so_u_z_cn := 3 / 10; so_u_z_germ := 3 / 10; so_u_adj_cn := 1%Z;
+     so_u_fshape_cr := 16; so_u_z_top := 1 / 10 |}.
+Definition ex_row (d : Z) (rain et0 : R) : Z * list (Inputs.Cell R) :=
+  (d, [Inputs.VDate d; Inputs.VNum 10; Inputs.VNum 22; Inputs.VNum rain; Inputs.VNum et0]).
+Definition ex_weather : Inputs.Table R :=
+  {| Inputs.t_cols := [Inputs.CDate; Inputs.CMinTemp; Inputs.CMaxTemp; Inputs.CPrecip; Inputs.CRefET];
+     Inputs.t_rows := [ex_row 730241 0 (35 / 10); ex_row 730242 12 3; ex_row 730243 0 (1 / 10)] |}.
+Definition ex_cfg (en : Z * Z * Z) : Config R :=
+  {| cf_start := (2000, 5, 1)%Z; cf_end := en; cf_weather := ex_weather; cf_soil := ex_soil; cf_crop := ex_crop;
+     cf_iwc := {| w_type := SoilBuild.TProp; w_method := SoilBuild.MLayer; w_depth_layer := [1]; w_value := [SoilBuild.VTok SoilBuild.PFC] |};
+     cf_irr := {| ir_method := 0%Z; ir_SMT := [0; 0; 0; 0]; ir_AppEff := 100; ir_MaxIrr := 25; ir_IrrInterval := 0%Z; ir_sched := [];
+                  ir_depth := 0; ir_MaxIrrSeason := 10000; ir_NetIrrSMT := 80; ir_WetSurf := 100 |};
+     cf_field := ex_field; cf_fallow_field := ex_field;
+     cf_gw := {| gw_present := false; gw_method := Inputs.GwConstant; gw_obs := [] |};
+     cf_co2 := {| Inputs.co2_ref := 36941 / 100; Inputs.co2_current := 0; Inputs.co2_constant := false; Inputs.co2_data := [(2000%Z, 36941 / 100)];
+                  Inputs.co2_processed := [] |};
+     cf_off_season := false |}.
+
+(* the premises on the configuration are satisfiable (non-trivially: bunds, a curve-number adjustment of +10 %, rain and ET0 in the table) *)
+Example cfg_ok_example : CfgOK (ex_cfg (2000, 5, 3)%Z) /\ soil_u_ok (cf_soil (ex_cfg (2000, 5, 3)%Z)).
+Proof.
+  split.
+  - constructor; cbn [ex_cfg cf_gw gw_present cf_irr ir_MaxIrrSeason ir_NetIrrSMT ir_WetSurf cf_soil ex_soil so_u_kex so_u_fwcc cf_co2
+                      Inputs.co2_ref cf_field cf_fallow_field cf_weather]; try lra; try reflexivity.
+    + intros r x Hr. cbn [ex_weather Inputs.t_rows] in Hr.
+      destruct Hr as [<-|[<-|[<-|[]]]]; (split; intros E; vm_compute in E; injection E as <-; lra).
+    + unfold field_u_ok, ex_field. cbn. lra.
+    + unfold field_u_ok, ex_field. cbn. lra.
+    + intros cn Hc. unfold cn_candidate in Hc. cbn in Hc. subst cn. unfold cn_field_ok, RainIrrR.cn_mgmt, ex_field. cbn. lra.
+  - split.
+    + cbn. repeat constructor; exists 10%Z; (split; [lia|lra]).
+    + cbn. intros Ls E. injection E as <-. repeat constructor; cbn; lra.
+Qed.
+
+(* the model computes on a concrete configuration: a window of one day is rejected where read_clock_parameters raises *)
+Example initialise_rejects_example : initialise (ex_cfg (2000, 5, 1)%Z) = IErr_ (ECal Calendar.IndexError_TimeSpan).
+Proof. reflexivity. Qed.
+
+(* [DerivedOK] is satisfiable: the parameter structures of DaySideP.Ex (two layers / four compartments, bunds, net irrigation), the
+   one-season clock and the weather of InitStateP's example, the state init_state builds for them *)
+Example derived_ok_example : exists s0,
+  InitState.init_state DaySideP.Ex.par (init_season ex_clock) None false ex_th0 = Some s0 /\
+  DerivedOK {| i_par := DaySideP.Ex.par; i_crops := DaySideP.Ex.crops; i_clock := ex_clock; i_weather := ex_ws; i_state := s0;
+               i_reset_ok := fun _ => true |}.
+Proof.
+  destruct (init_state_defined_no_table DaySideP.Ex.par (init_season ex_clock) None false ex_th0 eq_refl) as (s0 & E & Eth & _).
+  exists s0. split; [exact E|].
+  pose proof DaySideP.Ex.par_ok as P.
+  constructor; cbn [i_par i_crops i_clock i_state].
+  - exact (po_wf _ _ P).
+  - exact (po_geom _ _ P).
+  - exact (po_layers _ _ P).
+  - exact (po_pen _ _ P).
+  - exact (po_crop _ _ P).
+  - intros k p h Hp Hh. cbn [ex_clock plant harv] in Hp, Hh.
+    destruct (nthZ_single _ _ _ Hp) as [_ ->]. destruct (nthZ_single _ _ _ Hh) as [_ ->]. cbn. lra.
+  - rewrite Eth. exact ex_th0_bounds.
+Qed.
+
+Print Assumptions initialise_clock_wf.
+Print Assumptions initialise_state.
+Print Assumptions initialise_strong.
+Print Assumptions initialise_rinv2.
+Print Assumptions run_config_theorem.
+Print Assumptions derived_soil.
+Print Assumptions derived_crop.
+Print Assumptions run_config_theorem_cfg.
+Print Assumptions cfg_ok_example.
+Print Assumptions derived_ok_example.
